@@ -360,7 +360,9 @@ def run(tier, replay=None):
         if not cl:
             continue
         again = confirm(s, term)
-        still = _failed_clauses(again["rec"], again["fresh"]) | ({"term_well_formed"} & set(failed[cid]))
+        # two different strings for one expression inside one process are themselves the witness of impurity (a dependence on what the
+        # long-lived printer printed before cannot reproduce for a single term in a fresh interpreter), so that clause needs no re-run
+        still = _failed_clauses(again["rec"], again["fresh"]) | ({"term_well_formed", "deterministic"} & set(failed[cid]))
         for c in cl:
             reported[c] += 1
         if not (set(cl) & still):
